@@ -1,6 +1,9 @@
 """C01 - structured control flow runs with its source-level meaning."""
 
+import collections
 import copy
+import enum
+import functools
 import hashlib
 import json
 from fractions import Fraction
@@ -10,11 +13,20 @@ import progen
 
 ID = 'C01'
 LEVEL = 'proof'
-LEAN_TARGETS = ['BareProofs.C01', 'BareProofs.C01Erase', 'BareProofs.C01Host', 'BareProofs.C01Source', 'BareProofs.C01SourceInst']
+LEAN_TARGETS = ['BareProofs.C01', 'BareProofs.C01Erase', 'BareProofs.C01Host', 'BareProofs.C01Source', 'BareProofs.C01SourceInst', 'BareProofs.C01Syn']
 DRIVER = 'drv_c01'
 DRIVER_ROOT = 'Drv.C01'
 GEN = ['Consts']
 THEOREMS = [
+    # C01Syn: the purely syntactic sufficient condition for 'touches no reserved global' (no run-level hypothesis left)
+    'C01Syn.run_good', 'C01Syn.pure_good', 'C01Syn.hostImpl_clean',
+    'C01Syn.hostLib_clean', 'C01Syn.hostClean_guard', 'C01Syn.lowerB_nm',
+    'C01Syn.noGlobalAccess_touchesReserved', 'C01Syn.noGlobalAccess_runS', 'C01Syn.parse_exec_structured_hostImpl_syntactic',
+    'C01Syn.ticked_erasure_hostImpl_syntactic', 'C01Syn.parse_exec_structured_budget_hostImpl_syntactic', 'C01Syn.parse_exec_structured_hostLib_syntactic',
+    'C01Syn.ticked_erasure_hostLib_syntactic', 'C01Syn.parse_exec_structured_budget_hostLib_syntactic', 'C01Syn.noGlobalAccessL_touchesReserved',
+    'C01Syn.noGlobalAccess_real_eq_sanitized', 'C01Syn.noGlobalAccess_touchesReserved_includes', 'C01Syn.tablesOK_progTable',
+    'C01Syn.tableClean_progTable', 'C01Syn.parse_exec_structured_hostImpl_whole', 'C01Syn.parse_exec_structured_hostLib_whole',
+    'C01Syn.Demo.state_condition_needed',
     'C01.parseLines_render', 'C01.parse_rejects_ill_nested', 'C01.wellNested_of_parse_ok',
     'C01.lower_exact', 'C01.lower_exact_body', 'C01.run_lowered_eq_runT', 'C01.execute₀_lowered',
     'C01.parse_then_run', 'C01.while_retests_after_body', 'C01.while_continue_actual',
@@ -64,7 +76,11 @@ LEVEL_NOTE = ('Trusted: Lean kernel; harness (progen.py generator/renderer/refer
               'parse_exec_structured) relate the machine run of the parsed program to the plain source-level reading execS (no ticks, no '
               'hidden for-variables, conditions re-tested before every iteration) under the decidable hypotheses ProgOK (well nested, no '
               'raw jumps/includes, no reserved identifiers, no continue-in-while = F7) and host laws TruthyBool, HostNoReserved. '
-              'Python recursion limit and memory are outside the model; the rational number model has no negative zero.')
+              'Python recursion limit and memory are outside the model; the rational number model has no negative zero. '
+              'Host-only inputs (one options dict re-used over a history of runs with failing runs in between, host subclass values, '
+              'Python host callables, chunked source input) have no Lean counterpart: streams options-history and host-boundary check '
+              'them with implementation-side oracles (same step on fresh options, plain-value run, independent reading Ref); the '
+              'model comparison covers the steps / plain variants the driver can express.')
 
 
 def known_f7(w):
@@ -92,7 +108,19 @@ def gen_cases(ctx, n, stream):
     for i in range(n):
         gen = progen.Gen(rng, max_depth=rng.choice([2, 3, 4, 5]))
         prog = gen.program()
-        yield prog, progen.random_globals(rng), gen.stats
+        yield prog, keyword_globals(progen.random_globals(rng), rng), gen.stats
+
+
+KEYWORD_NAMES = ['true', 'false', 'null']
+
+
+def keyword_globals(g, rng, p=0.15):
+    """Now and then the host supplies globals NAMED like the keywords (C-style `true = 1`, `false = 0`, a `null` object): the
+    source-level meaning of `true`, `false` and `null` in conditions is the keyword, whatever is bound to that name."""
+    if rng.random() < p:
+        for name in rng.sample(KEYWORD_NAMES, rng.randint(1, 3)):
+            g[name] = rng.choice([0, 1, '', 's', None, True, False, [], [0], {}])
+    return g
 
 
 def streams(ctx):
@@ -102,9 +130,11 @@ def streams(ctx):
 
     # --- stream lower: text -> statement list (implementation) vs recursive lowering (spec) vs line-at-a-time mirror
     st = ctx.stream('lower', 'grammar-directed structured programs (depth<=5, <=3 functions + prelude): parse_script(text) vs Lean '
-                             'lowerProgram (spec) and parseLines∘render (mirror); non-trivial = contains a loop or an if chain')
+                             'lowerProgram (spec) and parseLines∘render (mirror); oracle: parse_script of the same lines handed over as an iterable of '
+                             'chunks with a start line number <= 0 or > 1 returns the same model; non-trivial = contains a loop or an if chain')
     resps = ctx.driver.batch([{'op': 'lower', 'prog': prog} for prog, _, _ in cases])
     models = []
+    crng = ctx.rng('chunks')
     for (prog, _, stats), resp in zip(cases, resps):
         text = '\n'.join(progen.render(prog))
         model = parser.parse_script(text)
@@ -113,6 +143,13 @@ def streams(ctx):
         st.case(text, nontrivial=any(k in stats for k in ('if', 'while', 'for')), tags=sorted(stats))
         ctx.compare('lower', text, impl, progen.round_script_numbers(resp.get('spec')))
         ctx.compare('lower-mirror', text, impl, progen.round_script_numbers(resp.get('mirror')))
+        # the other legal spellings of the same source: an iterable of chunks of whole lines (list / tuple / iterator, LF or CRLF
+        # inside a chunk, a trailing line end), any start line number (0 and negative too): the same model
+        spelling = chunk_spelling(text, crng)
+        alt = parse_spelled(parser, text, spelling)
+        if alt != model:
+            ctx.witness('chunked-parse', {'text': text, 'spelling': spelling}, impl,
+                        alt if 'error' in alt else progen.canon_script(alt, with_fid=False), explained_by_f7=False)
 
     # --- stream exec: run
     impls = exec_stream(ctx, 'exec', cases, models,
@@ -125,7 +162,7 @@ def streams(ctx):
     stream_print_parse(ctx, parser)
 
     # --- stream calls: call-heavy programs (per-call state: rest parameters, omitted arguments, in-place mutation, recursion)
-    call_cases = list(gen_call_cases(ctx, ctx.scale(250, 6000), 'calls'))
+    call_cases = list(gen_call_cases(ctx, ctx.scale(250, 2500), 'calls'))
     call_models = [parser.parse_script('\n'.join(progen.render(prog))) for prog, _, _ in call_cases]
     call_impls = exec_stream(ctx, 'calls', call_cases, call_models,
                              'call-heavy structured programs (CallGen: functions with rest parameters / omitted and surplus arguments whose '
@@ -138,6 +175,38 @@ def streams(ctx):
     stream_options_history(ctx, parser, cases, call_cases)
     stream_host_boundary(ctx, parser, cases, impls, call_cases, call_impls)
     del call_models
+
+
+def chunk_spelling(text, rng):
+    """-> {'sizes': lines per chunk, 'eol': line end inside a chunk, 'tail': chunks end with a line end, 'as': container, 'start': n}"""
+    n = len(text.split('\n'))
+    sizes = []
+    while sum(sizes) < n:
+        sizes.append(min(n - sum(sizes), rng.choice([1, 1, 2, 3, 5, 20])))
+    return {'sizes': sizes, 'eol': rng.choice(['\n', '\r\n']), 'tail': rng.random() < 0.3, 'as': rng.choice(['list', 'tuple', 'iter']),
+            'start': rng.choice([0, -1, -100, 1, 2, 10 ** 6])}
+
+
+def parse_spelled(parser, text, spelling):
+    lines = text.split('\n')
+    chunks, at = [], 0
+    for size in spelling['sizes']:
+        chunks.append(spelling['eol'].join(lines[at:at + size]) + (spelling['eol'] if spelling['tail'] else ''))
+        at += size
+    arg = {'list': list, 'tuple': tuple, 'iter': iter}[spelling['as']](chunks)
+    try:
+        return parser.parse_script(arg, spelling['start'])
+    except Exception as exc:  # pylint: disable=broad-except
+        return {'error': f'{type(exc).__name__}: {str(exc)[:200]}'}
+
+
+def _w_input(text, g, prog):
+    """Witness input: the replay needs text and globals; the structured form is added for the reader when it is small (the framework
+    truncates large witnesses)."""
+    inp = {'text': text, 'globals': g}
+    if len(json.dumps(prog)) < 6000:
+        inp['prog'] = prog
+    return inp
 
 
 def exec_stream(ctx, name, cases, models, rule, nontrivial, own_ref=False):
@@ -184,12 +253,18 @@ def exec_stream(ctx, name, cases, models, rule, nontrivial, own_ref=False):
             ref = progen.run_reference(prog, g)
             if ref is not None and ref != got:
                 ref7 = progen.run_reference(prog, g, f7_quirk=True) if progen.has_while_continue(prog) else None
-                ctx.witness('structured-reading', {'text': text, 'globals': g, 'prog': prog}, ref, got,
+                ctx.witness('structured-reading', _w_input(text, g, prog), ref, got,
                             explained_by_f7=(ref7 is not None and ref7 == got))
             elif own_ref:
                 ref2 = run_ref(prog, g)
                 if ref2 is not None and ref2 != got:
-                    ctx.witness('structured-reading', {'text': text, 'globals': g, 'prog': prog}, ref2, got, explained_by_f7=False)
+                    ctx.witness('structured-reading', _w_input(text, g, prog), ref2, got, explained_by_f7=False)
+        elif impl.get('error', '').startswith('Exceeded maximum') and not progen.has_while_continue(prog):
+            # a budget error is outside the property only if the budget really is used up
+            ref = run_ref(prog, g, budget=60, steps=True)
+            if needless_budget_error(impl, ref, 400):
+                ctx.witness('needless-budget-error', _w_input(text, g, prog), _no_steps(ref), progen.strip_hidden(impl),
+                            explained_by_f7=False)
     return impls
 
 
@@ -482,6 +557,1053 @@ def stream_print_parse(ctx, parser):
         ctx.broken.append(f'correspondence stream print-parse: only {n_printable}/{len(progs)} generated programs are printable')
 
 
+# ---------------------------------------------------------------------------------------------------------------------
+# Ref: the structured reading with its OWN expression walk and call dispatch (progen.RefInterp hands whole expressions to the
+# implementation's evaluate_expression, so a change in how a call is dispatched, how arguments are evaluated or how a failing host
+# function is treated would move oracle and implementation together).  Only the strict operators on already evaluated operands
+# are shared with the implementation (C03 is about them).
+# ---------------------------------------------------------------------------------------------------------------------
+
+_REF_CONTROL = (progen.RefBudget, progen._Break, progen._Continue, progen._Return)    # pylint: disable=protected-access
+
+
+class Ref(progen.RefInterp):
+    def strict(self, node, **operands):
+        return self.mods['runtime'].evaluate_expression(node, self.options, operands, False)
+
+    def ev(self, e, locals_):
+        (k, v), = e.items()
+        if k == 'number':
+            return float(Fraction(v[0], v[1]))
+        if k == 'string':
+            return v
+        if k == 'variable':
+            if v in ('null', 'true', 'false'):
+                return {'null': None, 'true': True, 'false': False}[v]
+            return self.lookup(v, locals_)
+        if k == 'group':
+            return self.ev(v, locals_)
+        if k == 'unary':
+            x = self.ev(v['expr'], locals_)
+            if v['op'] == '!':
+                return not self.truthy(x)
+            return self.strict({'unary': {'op': v['op'], 'expr': {'variable': 'x'}}}, x=x)
+        if k == 'binary':
+            left = self.ev(v['left'], locals_)
+            if v['op'] == '&&':
+                return left if not self.truthy(left) else self.ev(v['right'], locals_)
+            if v['op'] == '||':
+                return left if self.truthy(left) else self.ev(v['right'], locals_)
+            right = self.ev(v['right'], locals_)
+            return self.strict({'binary': {'op': v['op'], 'left': {'variable': 'l'}, 'right': {'variable': 'r'}}}, l=left, r=right)
+        # call: `if` is lazy; otherwise arguments left to right, then locals -> globals (script mode: no expression built-ins)
+        name, args = v['name'], v['args']
+        if name == 'if':
+            test = self.ev(args[0], locals_) if args else False
+            pick = (args[1] if len(args) > 1 else None) if self.truthy(test) else (args[2] if len(args) > 2 else None)
+            return self.ev(pick, locals_) if pick is not None else None
+        values = [self.ev(a, locals_) for a in args]
+        if locals_ is not None and name in locals_:
+            fn = locals_[name]
+        else:
+            fn = self.options['globals'].get(name)
+        if fn is None:
+            raise self.mods['runtime'].BareScriptRuntimeError(f'Undefined function "{name}"')
+        try:
+            return fn(values, self.options)
+        except _REF_CONTROL:
+            raise
+        except (self.mods['runtime'].BareScriptRuntimeError, self.mods['parser'].BareScriptParserError):
+            raise
+        except Exception as exc:  # pylint: disable=broad-except
+            # a failing (host or library) function is null - or the error return value it names - and the run goes on
+            return exc.return_value if isinstance(exc, self.mods['value'].ValueArgsError) else None
+
+
+def run_ref(prog, globals_=None, host=None, budget=20000, f7_quirk=False, steps=False):
+    """progen.run_reference with the Ref reading; `host` = host functions (fresh instances) put into the globals;
+    steps=True adds 'steps' = the number of statements / loop iterations the reading took."""
+    mods = fw.impl()
+    library = mods['library']
+    log = []
+    g = copy.deepcopy(dict(globals_ or {}))
+    g.update(host or {})
+    for name, fn in library.SCRIPT_FUNCTIONS.items():
+        g.setdefault(name, fn)
+    options = {'globals': g, 'maxStatements': 0, 'logFn': log.append, 'statementCount': 0}
+    out = {}
+    interp = Ref(options, budget, f7_quirk)
+    try:
+        out['result'] = progen.ref_wire(interp.run(prog), library.SCRIPT_FUNCTIONS)
+    except (progen.RefBudget, RecursionError):
+        return None
+    except mods['runtime'].BareScriptRuntimeError as exc:
+        out['error'] = str(exc)
+    if steps:
+        out['steps'] = budget - interp.budget
+    out['log'] = list(log)
+    out['globals'] = sorted([[k, progen.ref_wire(v, library.SCRIPT_FUNCTIONS)] for k, v in g.items()
+                             if not (k in library.SCRIPT_FUNCTIONS and v is library.SCRIPT_FUNCTIONS[k])], key=lambda kv: kv[0])
+    return progen.canon_neg_zero(out)
+
+
+# ---------------------------------------------------------------------------------------------------------------------
+# CallGen: call-heavy programs.  What the grammar-directed generator of progen leaves thin: a function's parameters (above all an
+# omitted '...' rest parameter) MUTATED IN PLACE or RETURNED by the body, the same function called many times (sequence, for, while,
+# bounded recursion, nested in arguments, through systemPartial) with fewer / exactly / more arguments than parameters, global
+# arrays passed by reference, functions re-defined between calls or defined by a statement that runs once per loop iteration.
+# Every call must start from its own frame: parameters bound from this call's arguments only.
+# ---------------------------------------------------------------------------------------------------------------------
+
+N, S, V, C, B = progen.num, progen.string, progen.var, progen.call, progen.wf_binary
+
+
+def _log(*parts):
+    e = parts[0]
+    for p in parts[1:]:
+        e = B('+', e, p)
+    return {'k': 'expr', 'name': None, 'e': C('systemLog', e)}
+
+
+def _set(name, e):
+    return {'k': 'expr', 'name': name, 'e': e}
+
+
+def _do(e):
+    return {'k': 'expr', 'name': None, 'e': e}
+
+
+def _if(c, t, els=None):
+    return {'k': 'if', 'c': c, 't': t, 'else': ({'k': 'else', 'b': els} if els is not None else None)}
+
+
+def _called_names(node):
+    """Names of all functions called anywhere in a block / statement / expression."""
+    out = set()
+    if isinstance(node, dict):
+        if set(node) == {'function'} and isinstance(node['function'], dict) and 'args' in node['function']:
+            out.add(node['function']['name'])
+        for v in node.values():
+            out |= _called_names(v)
+    elif isinstance(node, list):
+        for v in node:
+            out |= _called_names(v)
+    return out
+
+
+class CallGen:
+    PARAMS = ['p', 'q', 'xs', 'acc', 'a', 'n']
+    FNAMES = ['fa', 'fb', 'fc', 'tally', 'walk']
+
+    def __init__(self, rng, host=()):
+        self.rng = rng
+        self.funcs = []         # (name, params, lastArgArray, recursive)
+        self.host = list(host)  # (name, nargs) host functions that may be called
+        self.stats = {}
+        self.tmp = 0
+        self.pending = []       # helper definitions that go with the function defined last
+        self.reach = {}         # name -> script functions its current body can end up calling
+        self.loop_rec = set()   # functions that re-enter themselves from inside a loop: keep their recursion shallow
+
+    def count(self, what, k=1):
+        self.stats[what] = self.stats.get(what, 0) + k
+
+    # -- small expressions ----------------------------------------------------------------------------------------------
+    def small(self, names):
+        rng = self.rng
+        r = rng.random()
+        if r < 0.3:
+            return N(rng.choice([0, 1, 2, 3, 5, 7]))
+        if r < 0.4:
+            return S(rng.choice(['', 's', 'k']))
+        if r < 0.7 and names:
+            return V(rng.choice(names))
+        if r < 0.8 and names:
+            return C('arrayLength', V(rng.choice(names)))
+        if r < 0.9:
+            return C('arrayNew', *[N(rng.randint(0, 4)) for _ in range(rng.randint(0, 3))])
+        return V(rng.choice(['null', 'true', 'false'] + progen.VARS))
+
+    def call_of(self, fn, names, nargs=None):
+        """A call of script function `fn` with fewer / exactly / more arguments than it has parameters."""
+        name, params, laa, rec = fn
+        rng = self.rng
+        if nargs is None:
+            nargs = max(0, len(params) + rng.choice([-2, -1, -1, 0, 0, 1, 2]) - (1 if laa and rng.random() < 0.6 else 0))
+        args = [self.small(names) for _ in range(nargs)]
+        if rec and args:
+            args[0] = N(rng.randint(0, 2 if name in self.loop_rec else 4))          # the recursion depth
+        self.count('calls')
+        if laa and nargs < len(params):
+            self.count('rest-omitted')
+        elif laa:
+            self.count('rest-passed')
+        if nargs < len(params) - (1 if laa else 0):
+            self.count('arg-omitted')
+        if nargs > len(params) and not laa:
+            self.count('arg-surplus')
+        return C(name, *args)
+
+    def any_call(self, names):
+        rng = self.rng
+        if self.host and rng.random() < 0.35:
+            name, nargs = rng.choice(self.host)
+            self.count('host-calls')
+            return C(name, *[self.small(names) for _ in range(max(0, nargs + rng.choice([0, 0, -1, 1])))])
+        if not self.funcs:
+            return C('arrayNew', self.small(names))
+        fn = rng.choice(self.funcs)
+        e = self.call_of(fn, names)
+        if rng.random() < 0.15 and e['function']['args']:
+            # a call nested in the arguments of a call (of the same or another function)
+            e['function']['args'][-1] = self.call_of(rng.choice(self.funcs), names)
+            self.count('nested-call')
+        return e
+
+    # -- function bodies --------------------------------------------------------------------------------------------------
+    def body_stmt(self, name, params, laa, rec, depth=0):
+        rng = self.rng
+        rest = params[-1] if laa and params else None
+        free = [q for q in params if q != 'depth'] or ['loc']      # the recursion depth is never assigned: recursion stays bounded
+        tgt = rest if rest is not None and rng.random() < 0.7 else rng.choice(free)
+        names = params + ['loc']
+        r = rng.random()
+        if r < 0.22:
+            self.count('mutate-push')
+            return [_do(C('arrayPush', V(tgt), self.small(names)))]
+        if r < 0.30:
+            self.count('mutate-set')
+            if rng.random() < 0.5:
+                return [_do(C('arraySet', V(tgt), N(0), self.small(names)))]
+            return [_do(C('objectSet', V(tgt), S('k'), self.small(names)))]
+        if r < 0.42:
+            return [_log(S(name + ':' + tgt + '='), rng.choice([C('arrayLength', V(tgt)), V(tgt)]))]
+        if r < 0.50:
+            return [_set('loc', rng.choice([C('arrayLength', V(tgt)), V(tgt), self.small(names)]))]
+        if r < 0.60 and depth < 2:
+            c = rng.choice([B('>', C('arrayLength', V(tgt)), N(rng.randint(0, 2))), V(tgt), progen.unop('!', V(tgt)),
+                            B('==', V(rng.choice(names)), N(rng.randint(0, 3)))])
+            t = self.body_stmt(name, params, laa, rec, depth + 1)
+            els = self.body_stmt(name, params, laa, rec, depth + 1) if rng.random() < 0.5 else None
+            self.count('if')
+            return [_if(c, t, els)]
+        if r < 0.68 and depth < 2:
+            self.count('for')
+            inner = self.body_stmt(name, params, laa, rec, depth + 1)
+            if rng.random() < 0.3:
+                inner.insert(0, _if(B('==', V('v'), N(rng.randint(0, 3))), [{'k': rng.choice(['break', 'continue'])}]))
+            return [{'k': 'for', 'value': 'v', 'index': rng.choice([None, 'i']), 'vals': V(tgt), 'b': inner}]
+        if r < 0.74 and rest is not None and depth < 2:
+            # a loop that ends because the body grows the rest array: the test must see the mutation
+            self.count('while')
+            k = rng.randint(1, 3)
+            return [{'k': 'while', 'c': B('<', C('arrayLength', V(rest)), N(k)), 'b': [_do(C('arrayPush', V(rest), N(k)))]}]
+        if r < 0.80:
+            # default for an omitted argument, then mutated
+            self.count('default-init')
+            return [_if(progen.unop('!', V(tgt)), [_set(tgt, C('arrayNew'))]), _do(C('arrayPush', V(tgt), N(rng.randint(0, 9))))]
+        if r < 0.88 and self.funcs:
+            return [_set('loc', self.call_of(rng.choice(self.funcs), names))]
+        if r < 0.94:
+            self.count('return')
+            ret = {'k': 'ret', 'e': rng.choice([V(tgt), C('arrayLength', V(tgt)), self.small(names), None])}
+            return [_if(B(rng.choice(['>', '<', '==']), V(rng.choice(names)), N(rng.randint(0, 3))), [ret])] if rng.random() < 0.6 else [ret]
+        return [_set(tgt, rng.choice([C('arrayCopy', V(tgt)), C('arrayNew', self.small(names)), self.small(names)]))]
+
+    def funcdef(self, name, callable_funcs):
+        rng = self.rng
+        nparams = rng.choice([0, 1, 1, 2, 2, 3, 3])        # without parameters too: the frame of a call is new even when nothing is bound
+        params = rng.sample(self.PARAMS, nparams)
+        if nparams and rng.random() < 0.12:
+            # a parameter named like a keyword: it is bound, but `true` / `false` / `null` in an expression stay the keywords
+            params[rng.randrange(nparams)] = rng.choice(KEYWORD_NAMES)
+            self.count('keyword-name')
+        laa = nparams > 0 and rng.random() < 0.6
+        rec = nparams > 0 and rng.random() < 0.35
+        if rec:
+            params[0] = 'depth'
+            if laa and nparams == 1:
+                params.append('more')       # the depth itself is never the rest array
+        # the call graph stays acyclic apart from the depth-bounded self recursion (Python's recursion limit is not modelled):
+        # a (re-)definition of `name` may call only functions that do not lead back to `name`
+        saved, self.funcs = self.funcs, [f for f in callable_funcs if f[0] != name and name not in self.reach.get(f[0], ())]
+        body = []
+        for _ in range(rng.randint(2, 6)):
+            body += self.body_stmt(name, params, laa, rec)
+        called = _called_names(body) & {f[0] for f in self.funcs}
+        reach = set(called)
+        for c in called:
+            reach |= self.reach.get(c, set())
+        reach |= self.reach.get(name, set())        # an earlier definition may still be the live one (a definition under a branch)
+        self.reach[name] = reach
+        for r in self.reach.values():
+            if name in r:
+                r |= reach
+        if rec:
+            # bounded recursion: every level is a new call of the same function, most of them without the rest arguments
+            self.count('recursion')
+            extra = [self.small(params)] if rng.random() < 0.3 else []
+            callee = name
+            via = []
+            if rng.random() < 0.3:
+                # indirect re-entry: the function calls a helper that calls the function
+                self.count('recursion-indirect')
+                callee = name + 'Via'
+                via = [{'k': 'func', 'fid': 0, 'name': callee, 'args': ['depth', 'q'], 'lastArgArray': False, 'async': False,
+                        'b': [{'k': 'for', 'value': 'w', 'index': None, 'vals': C('arrayNew', V('q')),
+                               'b': [_set('got', C(name, V('depth'), V('w')))]}, {'k': 'ret', 'e': V('got')}]}]
+            again = [rng.choice([_do, lambda e: _set('loc', e)])(C(callee, B('-', V('depth'), N(1)), *extra))]
+            self.count('calls')
+            pos = rng.randint(0, len(body))
+            if rng.random() < 0.6:
+                # re-entered while one of its own loops is running: the loop of every activation keeps its own array, length and
+                # position (recursive tree walk)
+                self.count('recursion-in-loop')
+                self.loop_rec.add(name)
+                vals = rng.choice([C('arrayNew', *[N(rng.randint(0, 5)) for _ in range(rng.randint(1, 3))]), V(params[-1])])
+                ix = rng.choice([None, 'i'])
+                shown = [S(name + ':'), V('v')] + ([S('@'), V(ix)] if ix else [])
+                inner = [_if(B('>', V('depth'), N(0)), again), _log(*shown)]
+                if rng.random() < 0.5:
+                    inner.reverse()
+                if rng.random() < 0.3:
+                    inner = [{'k': 'for', 'value': 'u', 'index': None, 'vals': C('arrayNew', N(7), N(8)), 'b': inner}]
+                body[pos:pos] = [{'k': 'for', 'value': 'v', 'index': ix, 'vals': vals, 'b': inner}]
+            else:
+                body[pos:pos] = [_if(B('>', V('depth'), N(0)), again)]
+        if rng.random() < 0.7:
+            last = params[-1] if params else 'loc'
+            body.append({'k': 'ret', 'e': rng.choice([V(last), C('arrayLength', V(last)), V('loc')])})
+        self.funcs = saved
+        self.funcs = [f for f in self.funcs if f[0] != name] + [(name, params, laa, rec)]
+        self.count('funcdef')
+        if laa:
+            self.count('rest')
+        self.pending = (via if rec else [])
+        return {'k': 'func', 'fid': 0, 'name': name, 'args': params, 'lastArgArray': laa, 'async': False, 'b': body}
+
+    # -- main block -------------------------------------------------------------------------------------------------------
+    def main_stmt(self, depth=0):
+        rng = self.rng
+        names = progen.VARS + ['t', 'keep']
+        r = rng.random()
+        if r < 0.05:
+            # C-style constants: binds a variable, the keyword keeps its meaning
+            self.count('keyword-name')
+            name = rng.choice(KEYWORD_NAMES)
+            return [_set(name, self.small(names)),
+                    _if(rng.choice([V(name), progen.unop('!', V(name)), B('==', self.any_call(names), V(name))]),
+                        [_log(S(name + ' branch'))], [_log(S(name + ' other'))])]
+        if r < 0.25:
+            return [_set(rng.choice(['t', 'keep'] + progen.VARS[:3]), self.any_call(names))]
+        if r < 0.37:
+            return [_log(S('r='), self.any_call(names))]
+        if r < 0.45:
+            # keep what a call returned (possibly its parameter array) and change it: later calls must not see that
+            self.count('keep-mutate')
+            return [_set('keep', self.any_call(names)), _do(C('arrayPush', V('keep'), N(rng.randint(5, 9)))),
+                    _log(S('keep='), V('keep'))]
+        if r < 0.60 and depth < 2:
+            self.count('for')
+            vals = rng.choice([C('arrayNew', *[N(rng.randint(0, 4)) for _ in range(rng.randint(1, 4))]), V(rng.choice(progen.VARS))])
+            body = []
+            if rng.random() < 0.25:
+                body.append(_if(B('==', V('v'), N(rng.randint(0, 4))), [{'k': rng.choice(['break', 'continue'])}]))
+            for _ in range(rng.randint(1, 3)):
+                body += self.main_stmt(depth + 1)
+            return [{'k': 'for', 'value': 'v', 'index': rng.choice([None, 'i']), 'vals': vals, 'b': body}]
+        if r < 0.70 and depth < 2:
+            self.count('while')
+            self.tmp += 1
+            k = f'k{self.tmp}'
+            body = [_set(k, B('+', V(k), N(1)))]
+            for _ in range(rng.randint(1, 2)):
+                body += self.main_stmt(depth + 1)
+            if rng.random() < 0.25:
+                body.append(_if(B('>', V('t'), N(rng.randint(1, 4))), [{'k': 'break'}]))
+            return [_set(k, N(0)), {'k': 'while', 'c': B('<', V(k), N(rng.randint(1, 4))), 'b': body}]
+        if r < 0.78 and self.funcs:
+            # the definition is a statement: run again (re-definition, or once per iteration of a loop)
+            fn = rng.choice(self.funcs)
+            self.count('redefine')
+            d = self.funcdef(fn[0], [f for f in self.funcs if f[0] != fn[0] and not f[3]])
+            if self.pending:
+                return self.pending + [d]
+            if depth == 0 and rng.random() < 0.5:
+                self.count('define-in-loop')
+                return [{'k': 'for', 'value': 'w', 'index': None, 'vals': C('arrayNew', N(1), N(2)),
+                         'b': [d, _set('t', self.call_of(self.funcs[-1], names)), _log(S('w='), V('t'))]}]
+            return [d]
+        if r < 0.86 and self.funcs:
+            self.count('partial')
+            fn = rng.choice(self.funcs)
+            out = [_set('pf', C('systemPartial', V(fn[0]), self.small(names)))]
+            for _ in range(rng.randint(1, 3)):
+                self.count('calls')
+                out.append(_set('t', C('pf', *[self.small(names) for _ in range(rng.randint(0, 2))])))
+            return out + [_log(S('pf='), V('t'))]
+        if r < 0.93 and depth < 2:
+            self.count('if')
+            return [_if(rng.choice([V('t'), B('>', V('t'), N(rng.randint(0, 3))), progen.unop('!', V('keep'))]),
+                        self.main_stmt(depth + 1), self.main_stmt(depth + 1) if rng.random() < 0.5 else None)]
+        return [_set(rng.choice(progen.VARS), self.small(names))]
+
+    def program(self):
+        rng = self.rng
+        prog = []
+        for name in rng.sample(self.FNAMES, rng.randint(1, 3)):
+            d = self.funcdef(name, [f for f in self.funcs if not f[3]])
+            prog += self.pending + [d]
+        for _ in range(rng.randint(3, 8)):
+            prog += self.main_stmt()
+        # the same call repeated back to back: the plainest history of all
+        fn = rng.choice(self.funcs)
+        again = self.call_of(fn, progen.VARS, nargs=rng.randint(0, max(0, len(fn[1]) - 1)))
+        for _ in range(rng.randint(2, 3)):
+            prog.append(_log(S('again='), copy.deepcopy(again)))
+            self.count('calls')
+        if rng.random() < 0.6:
+            prog.append({'k': 'ret', 'e': rng.choice([V('t'), V('keep'), self.any_call(progen.VARS)])})
+        return progen.assign_fids(prog)
+
+
+CALL_CORPUS = [
+    # the rest array of a call that passes no rest arguments is this call's own: push, return it, change it outside, recurse
+    [{'k': 'func', 'fid': 0, 'name': 'tally', 'args': ['name', 'extra'], 'lastArgArray': True, 'async': False, 'b': [
+        _set('before', C('arrayLength', V('extra'))), _do(C('arrayPush', V('extra'), V('name'))),
+        _log(V('name'), S(':'), V('before')), {'k': 'ret', 'e': V('extra')}]},
+     {'k': 'func', 'fid': 0, 'name': 'down', 'args': ['depth', 'seen'], 'lastArgArray': True, 'async': False, 'b': [
+         _do(C('arrayPush', V('seen'), V('depth'))), _if(B('>', V('depth'), N(0)), [_do(C('down', B('-', V('depth'), N(1))))]),
+         {'k': 'ret', 'e': C('arrayLength', V('seen'))}]},
+     {'k': 'for', 'value': 'v', 'index': None, 'vals': C('arrayNew', S('a'), S('b'), S('c')), 'b': [
+         _set('keep', C('tally', V('v'))), _do(C('arrayPush', V('keep'), N(9)))]},
+     _set('k', N(0)),
+     {'k': 'while', 'c': B('<', V('k'), N(2)), 'b': [_set('k', B('+', V('k'), N(1))), _log(S('w'), C('arrayLength', C('tally', V('k'))))]},
+     _log(S('x'), C('tally', S('x'), S('p'), S('q'))), _log(S('y'), C('tally')),
+     {'k': 'ret', 'e': C('down', N(3))}],
+]
+
+
+CALL_CORPUS.append(
+    # recursive tree walk: the for loop of every activation of `walk` goes on where it was when the inner activation returns
+    [{'k': 'func', 'fid': 0, 'name': 'walk', 'args': ['node', 'null'], 'lastArgArray': False, 'async': False, 'b': [
+        _set('total', N(0)),
+        {'k': 'for', 'value': 'child', 'index': 'ix', 'vals': V('node'), 'b': [
+            _if(B('==', C('systemType', V('child')), S('array')), [_set('total', B('+', V('total'), C('walk', V('child'), V('ix'))))],
+                [_set('total', B('+', V('total'), V('child')))]),
+            _log(S('visit '), V('ix'), S(':'), V('child'), S(' null='), V('null'))]},
+        {'k': 'ret', 'e': V('total')}]},
+     _set('true', N(0)), _set('false', N(1)),
+     _if(V('true'), [_log(S('true is the keyword'))], [_log(S('true was looked up'))]),
+     _if(B('==', B('<', N(1), N(2)), V('true')), [_log(S('1 < 2 == true'))]),
+     {'k': 'while', 'c': V('false'), 'b': [_log(S('false was looked up')), {'k': 'break'}]},
+     {'k': 'ret', 'e': C('walk', C('arrayNew', N(1), C('arrayNew', N(2), C('arrayNew', N(3)), N(4)), N(5)), S('top'))}])
+
+
+def gen_call_cases(ctx, n, stream):
+    rng = ctx.rng(stream)
+    for prog in CALL_CORPUS:
+        yield progen.assign_fids(copy.deepcopy(prog)), {}, {'calls': 9, 'rest': 2, 'rest-omitted': 6, 'corpus': 1}
+    for _ in range(n):
+        gen = CallGen(rng)
+        prog = gen.program()
+        yield prog, keyword_globals(progen.random_globals(rng), rng), gen.stats
+
+
+# ---------------------------------------------------------------------------------------------------------------------
+# Running a step on options the HOST owns (progen.run_impl always builds fresh options)
+# ---------------------------------------------------------------------------------------------------------------------
+
+HISTORY_SUBS = {
+    'sub-ok': 'subCount = (subCount || 0) + 1\nfor sv in arrayNew(1, 2, 3):\n    subCount = subCount + sv\nendfor\nreturn subCount',
+    'sub-undefined': 'subSeen = 1\nfor sv in arrayNew(1, 2):\n    noSuchSubFunction(sv)\nendfor',
+    'sub-runaway': 'while true:\n    subSpin = (subSpin || 0) + 1\nendwhile',
+}
+
+
+def history_host():
+    """Stateless host functions of a re-used host: one that stops the run, one that fails (null), and two that run a sub-script
+    with the options they were handed (a nested execute_script), letting its error through / swallowing it."""
+    mods = fw.impl()
+    runtime, parser = mods['runtime'], mods['parser']
+
+    def host_fatal(args, unused_options):
+        raise runtime.BareScriptRuntimeError('host stop ' + str(args[0] if args else ''))
+
+    def host_boom(unused_args, unused_options):
+        raise KeyError('boom')
+
+    def host_run(args, options):
+        return runtime.execute_script(parser.parse_script(HISTORY_SUBS.get(args[0] if args else None, 'return 0')), options)
+
+    def host_try(args, options):
+        try:
+            return host_run(args, options)
+        except runtime.BareScriptRuntimeError:
+            return 'failed'
+
+    return {'hostFatal': host_fatal, 'hostBoom': host_boom, 'hostRun': host_run, 'hostTry': host_try}
+
+
+def run_on(options, log, model):
+    """One execute_script on host-owned options -> outcome in the shape of progen.run_impl."""
+    mods = fw.impl()
+    runtime, library, parser = mods['runtime'], mods['library'], mods['parser']
+    del log[:]
+    out = {}
+    try:
+        out['result'] = progen.value_to_wire(runtime.execute_script(model, options), library.SCRIPT_FUNCTIONS)
+    except runtime.BareScriptRuntimeError as exc:
+        out['error'] = str(exc)
+    except parser.BareScriptParserError as exc:
+        out['error'] = 'ParserError ' + str(exc).split('\n', 1)[0]
+    except RecursionError:
+        out['hostexc'] = 'RecursionError'
+    except Exception as exc:  # pylint: disable=broad-except
+        out['hostexc'] = type(exc).__name__ + ': ' + str(exc)[:200]
+    out['log'] = list(log)
+    g = options.get('globals') or {}
+    out['globals'] = sorted([[k, progen.value_to_wire(v, library.SCRIPT_FUNCTIONS)] for k, v in g.items()
+                             if not (k in library.SCRIPT_FUNCTIONS and v is library.SCRIPT_FUNCTIONS[k])], key=lambda kv: kv[0])
+    out['count'] = options.get('statementCount')
+    return progen.canon_neg_zero(out)
+
+
+def gen_fault(rng):
+    """A script that ends with an error part-way through loops and calls -> step {kind, text, files, host}."""
+    n = rng.randint(2, 4)
+    at = rng.randint(1, n)
+    items = ', '.join(str(i) for i in range(1, n + 1))
+    kind = rng.choice(['runaway-global', 'runaway-function', 'undefined-function', 'undefined-global', 'unknown-label',
+                       'include-missing', 'include-broken', 'include-runaway', 'include-undefined',
+                       'host-fatal', 'host-nested-error', 'host-nested-swallowed', 'host-nested-ok', 'host-exception', 'parse-error'])
+    files, host = None, False
+    if kind == 'parse-error':
+        # the host's parse of a broken script fails part-way through nested blocks; nothing is executed
+        text = f'''function half(m):
+    for k in arrayNew({items}):
+        if k == m:
+            while k < {at}:
+                k = k + 1
+            endwhile
+        {rng.choice(['endfor', 'else if:', 'k = = 1', 'endwhile'])}
+    endfor
+endfunction'''
+    elif kind == 'runaway-global':
+        text = f'''spins = 0
+for start in arrayNew({items}):
+    systemLog('spin ' + start)
+    while start == {at}:
+        spins = spins + 1
+    endwhile
+endfor'''
+    elif kind == 'runaway-function':
+        text = f'''function spin(m):
+    while true:
+        m = m + 1
+    endwhile
+    return m
+endfunction
+for start in arrayNew({items}):
+    systemLog('spin ' + start)
+    if start == {at}:
+        spin(start)
+    endif
+endfor'''
+    elif kind == 'undefined-function':
+        text = f'''function work(m):
+    for k in arrayNew({items}):
+        if k == m:
+            return noSuchFunction(k)
+        endif
+    endfor
+    return m
+endfunction
+j = 0
+while j < {n}:
+    j = j + 1
+    systemLog('work ' + j)
+    work(j + {at - 1})
+endwhile'''
+    elif kind == 'undefined-global':
+        text = f'''done = 0
+for k in arrayNew({items}):
+    if k == {at}:
+        done = missingFunction{at}(k)
+    endif
+    systemLog('k=' + k)
+endfor'''
+    elif kind == 'unknown-label':
+        text = f'''function hop(m):
+    if m == {at}:
+        jump nowhere{at}
+    endif
+    return m
+endfunction
+for k in arrayNew({items}):
+    systemLog('hop ' + hop(k))
+endfor'''
+    elif kind.startswith('include-'):
+        files = {'ok.bare': 'function included(m):\n    return m + 1\nendfunction\nincludedRuns = (includedRuns || 0) + 1',
+                 'broken.bare': 'if x:\n  y = 1\n',
+                 'runaway.bare': 'while true:\n    incSpin = (incSpin || 0) + 1\nendwhile',
+                 'undefined.bare': 'for iv in arrayNew(1, 2):\n    notThere(iv)\nendfor'}
+        url = {'include-missing': 'missing.bare', 'include-broken': 'broken.bare', 'include-runaway': 'runaway.bare',
+               'include-undefined': 'undefined.bare'}[kind]
+        text = f'''include 'ok.bare'
+for k in arrayNew({items}):
+    systemLog('inc ' + included(k))
+endfor
+include '{url}'
+systemLog('not reached')'''
+    else:
+        host = True
+        callee = {'host-fatal': f"hostFatal({at})", 'host-nested-error': "hostRun('sub-undefined')",
+                  'host-nested-swallowed': f"hostTry('{rng.choice(['sub-undefined', 'sub-runaway'])}')",
+                  'host-nested-ok': "hostRun('sub-ok')", 'host-exception': 'hostBoom(1)'}[kind]
+        text = f'''function viaHost(m):
+    if m == {at}:
+        return {callee}
+    endif
+    return m
+endfunction
+for k in arrayNew({items}):
+    systemLog('host ' + viaHost(k))
+endfor
+return k'''
+    return {'kind': kind, 'text': text, 'globals': {}, 'files': files, 'host': host}
+
+
+class History:
+    """One host configuration run twice: `reused` = one options object for all steps, `fresh` = a new options object per step.
+    mode 'reset': the host installs new globals before every step; mode 'carry': the globals object lives on across the steps."""
+
+    def __init__(self, mode, limit):
+        self.mode, self.limit = mode, limit
+        self.files = [None]
+        self.log = []
+        self.log2 = []
+        self.models = {}
+        self.reused = self.new_options(self.log)
+        self.carry2 = None
+
+    def new_options(self, log):
+        def fetch(req):
+            return (self.files[0] or {}).get(req['url'])
+        return {'maxStatements': self.limit, 'logFn': log.append, 'debug': False, 'fetchFn': fetch}
+
+    def step(self, step, parser):
+        """-> (outcome on the re-used options, outcome on fresh options)"""
+        self.files[0] = step.get('files')
+        text = step['text']
+        try:
+            if text not in self.models:
+                self.models[text] = parser.parse_script(text)        # the re-using host also keeps its parsed scripts
+            model2 = parser.parse_script(text)
+        except parser.BareScriptParserError as exc:
+            out = {'error': 'ParserError ' + str(exc).split('\n', 1)[0]}
+            return out, dict(out)
+        opts2 = self.new_options(self.log2)
+        if self.mode == 'reset':
+            for opts in (self.reused, opts2):
+                g = copy.deepcopy(step['globals'])
+                if step.get('host'):
+                    g.update(history_host())
+                if g or 'globals' not in opts:
+                    opts['globals'] = g
+                else:
+                    del opts['globals']     # a host may also drop the member: execute_script creates the globals
+        else:
+            if 'globals' not in self.reused:
+                self.reused['globals'] = dict(copy.deepcopy(step['globals']), **history_host())
+                self.carry2 = dict(copy.deepcopy(step['globals']), **history_host())
+            opts2['globals'] = self.carry2
+        a = run_on(self.reused, self.log, self.models[text])
+        b = run_on(opts2, self.log2, model2)
+        return a, b
+
+    def run(self, steps, parser):
+        """-> the two outcomes of the LAST step"""
+        a = b = None
+        for step in steps:
+            a, b = self.step(step, parser)
+        return a, b
+
+
+def run_history(mode, limit, steps, parser):
+    """-> index of the first step whose outcome on re-used options differs from fresh options, with both outcomes; or None"""
+    h = History(mode, limit)
+    for ix, step in enumerate(steps):
+        a, b = h.step(step, parser)
+        if outcomes_differ(a, b):
+            return ix, b, a
+    return None
+
+
+def needless_budget_error(out, ref, limit):
+    """The run stopped with 'Exceeded maximum script statements' although the structured reading of the program finishes in so few
+    steps that the lowered code cannot need `limit` statements: one step of the reading (a statement, or one loop iteration) is at
+    most 8 machine statements (an if chain: its tests, the closing jump and label; for: 6 set-up + 4 per iteration)."""
+    return ('error' in out and out['error'].startswith('Exceeded maximum script statements') and ref is not None
+            and 'error' not in ref and 8 * ref['steps'] + 16 <= limit)
+
+
+def _no_steps(ref):
+    return None if ref is None else {k: v for k, v in ref.items() if k != 'steps'}
+
+
+def outcomes_differ(a, b):
+    """Two runs that the property says are the same run: a violation when at least one of them completes and they differ in what the
+    property speaks of (result, log, user-visible globals).  Statement counts, hidden loop variables and the details of two failing
+    runs are left to the model comparison."""
+    if ('error' in a or 'hostexc' in a) and ('error' in b or 'hostexc' in b):
+        return False
+    return progen.strip_hidden(a) != progen.strip_hidden(b)
+
+
+def history_verdict(a, b, ref, limit, generated=False):
+    """a = outcome of a step on the re-used options, b = on fresh options, ref = structured reading of the step (mode reset) or None
+    -> name of the violated oracle, or None"""
+    if outcomes_differ(a, b):
+        return 'options-reuse'
+    if generated and a.get('error', '').startswith('ParserError'):
+        return 'options-reuse-parse'        # a generated program always parses
+    if needless_budget_error(a, ref, limit):
+        return 'options-reuse-budget'
+    if ref is not None and 'error' not in a and 'hostexc' not in a and _no_steps(ref) != progen.strip_hidden(a):
+        return 'options-reuse-reading'
+    return None
+
+
+def shrink_history(mode, limit, steps, ref, verdict, parser):
+    """Drop every earlier step the failure of the last step does not need (one pass, first to last)."""
+    i = 0
+    while i < len(steps) - 1:
+        trial = steps[:i] + steps[i + 1:]
+        a, b = History(mode, limit).run(trial, parser)
+        if history_verdict(a, b, ref, limit, True) == verdict:
+            steps = trial
+        else:
+            i += 1
+    return steps
+
+
+def stream_options_history(ctx, parser, cases, call_cases):
+    rng = ctx.rng('options-history')
+    st = ctx.stream('options-history',
+                    'histories of 5-11 execute_script runs on ONE options object owned by the host (finite maxStatements 60/150/400, '
+                    'logFn, fetchFn; globals re-installed per run = mode reset, or living on = mode carry; parsed models kept): generated '
+                    'programs repeated around runs that END WITH AN ERROR part-way through loops/calls (budget exhausted at top level / '
+                    'in a function, undefined function, unknown label, failing / broken / runaway include, host function raising, host '
+                    'function running a nested execute_script on the same options that fails or is swallowed). Oracles: every step gives '
+                    'the outcome (result or error, log, globals, statement count) of the same step on a fresh options object; in mode '
+                    'reset also the structured reading and "no budget error when the reading needs < limit/8 steps", and the Lean jump '
+                    'machine started at count 0 (the model of execute_script) for steps without host functions/includes. Host '
+                    'functions and the re-use of one Python dict are host-only: no Lean counterpart for them. non-trivial = history '
+                    'with a failed run followed by a run that completes')
+    pool = [(prog, g) for prog, g, _ in cases[1:]] + [(prog, g) for prog, g, _ in call_cases]
+    texts = {}
+    refs = {}
+
+    def good(ix):
+        if ix not in texts:
+            texts[ix] = '\n'.join(progen.render(pool[ix][0]))
+        return {'kind': 'generated', 'text': texts[ix], 'globals': pool[ix][1], 'files': None, 'host': False, 'pool': ix}
+
+    reqs, req_at = [], []
+    found = 0
+    for _ in range(ctx.scale(70, 800)):
+        if found >= 3:
+            break       # enough failing histories: each is shrunk, which costs runs
+        mode = rng.choice(['reset', 'reset', 'carry'])
+        limit = rng.choice([60, 150, 400, 400])
+        mains = [good(rng.randrange(len(pool))) for _ in range(rng.randint(1, 2))]
+        steps = [rng.choice(mains) for _ in range(rng.randint(1, 2))]
+        for _ in range(rng.randint(1, 2)):
+            steps.append(gen_fault(rng))
+            for _ in range(rng.randint(2, 4)):
+                steps.append(rng.choice(mains) if rng.random() < 0.8 else good(rng.randrange(len(pool))))
+        h = History(mode, limit)
+        failed = recovered = False
+        tags = [mode, f'limit{limit}']
+        for ix, step in enumerate(steps):
+            a, b = h.step(step, parser)
+            tags.append(step['kind'])
+            if 'error' in a or 'hostexc' in a:
+                failed = True
+            elif failed:
+                recovered = True
+            ref = None
+            if mode == 'reset' and step['kind'] == 'generated':
+                prog, g = pool[step['pool']]
+                if step['pool'] not in refs:
+                    refs[step['pool']] = None if progen.has_while_continue(prog) else run_ref(prog, g, budget=2000, steps=True)
+                ref = refs[step['pool']]
+            verdict = history_verdict(a, b, ref, limit, step['kind'] == 'generated')
+            if verdict is not None:
+                found += 1
+                short = shrink_history(mode, limit, steps[:ix + 1], ref, verdict, parser)
+                a, b = History(mode, limit).run(short, parser)
+                ctx.witness(verdict, {'mode': mode, 'limit': limit, 'steps': [{k: s[k] for k in ('text', 'globals', 'files', 'host')} for s in short]},
+                            b if verdict == 'options-reuse' else ('a model' if verdict == 'options-reuse-parse' else _no_steps(ref)),
+                            a if verdict != 'options-reuse-reading' else progen.strip_hidden(a),
+                            step=len(short) - 1, explained_by_f7=False)
+                break
+            if mode == 'reset' and not step['host'] and not step['files'] and step['text'] in h.models:
+                reqs.append({'op': 'exec', 'script': progen.canon_script(h.models[step['text']]),
+                             'globals': progen.wire_globals(step['globals']), 'max': limit, 'fuel': 5000})
+                req_at.append(([mode, limit, [s['text'] for s in steps[:ix + 1]], step['globals']], a))
+        st.case([mode, limit, [[s['text'], s['globals']] for s in steps]], nontrivial=failed and recovered, tags=tags)
+    for (case, a), resp in zip(req_at, ctx.driver.batch(reqs)):
+        ctx.compare('options-history', case, a, progen.canon_model_out(resp))
+
+
+# ---------------------------------------------------------------------------------------------------------------------
+# host boundary: values and callables only a host can put into the globals
+# ---------------------------------------------------------------------------------------------------------------------
+
+class IntSub(int):
+    pass
+
+
+class FloatSub(float):
+    pass
+
+
+class StrSub(str):
+    pass
+
+
+class ListSub(list):
+    pass
+
+
+class DictSub(dict):
+    pass
+
+
+class MissingDict(dict):
+    def __missing__(self, key):
+        return 'default'
+
+
+class Small(enum.IntEnum):
+    ZERO = 0
+    ONE = 1
+    TWO = 2
+    THREE = 3
+
+
+class Flag(enum.IntFlag):
+    NONE = 0
+    A = 1
+    B = 2
+
+
+def host_wrap(v, rng):
+    """The same BareScript value as `v`, spelled with the subclasses a host program may hand over (IntEnum / IntFlag members, int,
+    float, str, list, dict subclasses, OrderedDict, a dict with __missing__)."""
+    if v is None or isinstance(v, bool):
+        return v
+    if isinstance(v, int):
+        r = rng.random()
+        if r < 0.4 and 0 <= v <= 3:
+            return Small(v)
+        if r < 0.55 and 0 <= v <= 2:
+            return Flag(v)
+        return IntSub(v)
+    if isinstance(v, float):
+        return FloatSub(v)
+    if isinstance(v, str):
+        return StrSub(v)
+    if isinstance(v, list):
+        return ListSub(host_wrap(x, rng) for x in v)
+    if isinstance(v, dict):
+        return rng.choice([DictSub, collections.OrderedDict, MissingDict])((k, host_wrap(x, rng)) for k, x in v.items())
+    return v
+
+
+def wrap_globals(g, seed):
+    rng = fw.rng_for(seed, 'C01', 'host-wrap')
+    return {k: host_wrap(v, rng) for k, v in g.items()}
+
+
+class _Ticker:
+    def __init__(self):
+        self.n = 0.0
+
+    def __call__(self, unused_args, unused_options):
+        self.n += 1
+        return self.n
+
+    def seen(self, args, unused_options):
+        self.n += len(args)
+        return self.n
+
+
+def _host3(tag, args, unused_options):
+    return float(len(tag) + len(args))
+
+
+HOST_SIGNATURES = [('hostId', 1), ('hostLen', 2), ('hostBoom', 1), ('hostArgs', 1), ('hostTick', 0), ('hostSeen', 2),
+                   ('hostBound', 1), ('hostStar', 1), ('hostKw', 1), ('hostNull', 0), ('hostEmpty', 0)]
+
+
+def make_host():
+    """Fresh host callables of the shapes a host may register: def, lambda, callable object, bound method, functools.partial,
+    *args and defaulted signatures; failing ones (null) and one naming its error return value (ValueArgsError)."""
+    value = fw.impl()['value']
+    tick, seen = _Ticker(), _Ticker()
+
+    def host_id(args, unused_options):
+        return args[0] if args else None
+
+    def host_boom(args, unused_options):
+        raise KeyError(args[0])
+
+    def host_args(args, unused_options):
+        raise value.ValueArgsError('x', args[0] if args else None, -1.0)
+
+    def host_star(*both):
+        return both[0][0] if both[0] else None
+
+    def host_kw(args, options=None, extra=2.0):
+        return extra if options is not None and args else None
+
+    return {'hostId': host_id, 'hostLen': lambda args, options: float(len(args)), 'hostBoom': host_boom, 'hostArgs': host_args,
+            'hostTick': tick, 'hostSeen': seen.seen, 'hostBound': functools.partial(_host3, 'tag'), 'hostStar': host_star,
+            'hostKw': host_kw, 'hostNull': lambda args, options: None, 'hostEmpty': lambda args, options: []}
+
+
+def run_with_host(model, g, wrapped_seed=None, limit=400, no_globals_member=False):
+    log = []
+    gg = wrap_globals(g, wrapped_seed) if wrapped_seed is not None else copy.deepcopy(g)
+    options = {'maxStatements': limit, 'logFn': log.append, 'debug': False, 'statementCount': 10 ** 6}
+    if not no_globals_member:
+        options['globals'] = dict(gg, **make_host())
+    return run_on(options, log, model)
+
+
+TRUTH_VALUES = [None, True, False, 0, 1, 2, -1, 0.0, 0.5, '', 's', [], [0], [[]], {}, {'k': 0}]
+
+
+def gen_truth_case(rng):
+    """A program whose every kind of test position (if, elif, while header, while RE-TEST, for values, lazy `if()`, && / ||, a
+    condition inside a function on a parameter) consumes a value that comes straight from the host's globals: `seq` (an array of
+    values) and scalars h0..h3, some of them named like keywords.  -> (prog, globals)"""
+    g = {'seq': [rng.choice(TRUTH_VALUES) for _ in range(rng.randint(2, 6))]}
+    for k in range(4):
+        g[f'h{k}'] = rng.choice(TRUTH_VALUES)
+    keyword_globals(g, rng, 0.3)
+    hs = ['h0', 'h1', 'h2', 'h3'] + [k for k in KEYWORD_NAMES if k in g]
+    pick = lambda: rng.choice([V(rng.choice(hs)), C('arrayGet', V('seq'), N(rng.randint(0, 5)))])   # noqa: E731
+    prog = [{'k': 'func', 'fid': 0, 'name': 'truth', 'args': ['v', rng.choice(['w', 'null', 'true'])], 'lastArgArray': False, 'async': False,
+             'b': [_if(V('v'), [{'k': 'ret', 'e': S('T')}]), {'k': 'ret', 'e': S('F')}]}]
+    for _ in range(rng.randint(3, 7)):
+        r = rng.random()
+        if r < 0.25:
+            # the loop goes on exactly while the value just fetched is truthy: the re-test sees the host value itself
+            prog += [_set('i', N(0)), _set('cur', C('arrayGet', V('seq'), N(0))),
+                     {'k': 'while', 'c': V('cur'), 'b': [_log(S('walk '), V('i')), _set('i', B('+', V('i'), N(1))),
+                                                       _set('cur', C('arrayGet', V('seq'), V('i')))]}]
+        elif r < 0.45:
+            node = {'k': 'if', 'c': pick(), 't': [_log(S('first'))], 'else': None}
+            chain = node
+            for j in range(rng.randint(0, 2)):
+                chain['else'] = {'k': 'elif', 'c': pick(), 't': [_log(S(f'elif{j}'))], 'else': None}
+                chain = chain['else']
+            if rng.random() < 0.6:
+                chain['else'] = {'k': 'else', 'b': [_log(S('else'))]}
+            prog.append(node)
+        elif r < 0.6:
+            prog.append({'k': 'for', 'value': rng.choice(['v', 'true', 'null']), 'index': 'ix', 'vals': rng.choice([V('seq'), pick()]), 'b': [
+                _if(rng.choice([V('v'), C('arrayGet', V('seq'), V('ix'))]), [_log(S('T'), V('ix'))], [_log(S('F'), V('ix'))])]})
+        elif r < 0.75:
+            a, b = rng.sample(hs, 2)
+            prog += [_set('n', N(0)), _set('c', V(a)),
+                     {'k': 'while', 'c': V('c'), 'b': [_set('n', B('+', V('n'), N(1))), _log(S('spin '), V('n')),
+                                                     _if(B('>=', V('n'), N(2)), [_set('c', V(b))]),
+                                                     _if(B('>', V('n'), N(3)), [{'k': 'break'}])]}]
+        elif r < 0.9:
+            prog.append(_log(S('t='), C('truth', pick(), pick()), C('if', pick(), S('Y'), S('N')),
+                             progen.group(B('||', progen.group(B('&&', pick(), S('A'))), S('B')))))
+        else:
+            name = rng.choice(hs + KEYWORD_NAMES)
+            prog += [_set(name, pick()), _if(V(name), [_log(S(name + ' T'))], [_log(S(name + ' F'))])]
+    prog.append({'k': 'ret', 'e': C('truth', pick())})
+    return progen.assign_fids(prog), g
+
+
+def stream_host_boundary(ctx, parser, cases, impls, call_cases, call_impls):
+    rng = ctx.rng('host-boundary')
+    st = ctx.stream('host-boundary',
+                    '(values) generated programs re-run with every initial global spelled as a host subclass instance (IntEnum/IntFlag '
+                    'member, int/float/str/list/dict subclass, OrderedDict, dict with __missing__): same outcome as with the plain '
+                    'values; (truth) programs whose if / elif / while header / while re-test / for values / lazy if() / && || / parameter '
+                    'tests read values straight from host globals (also globals named true/false/null), plain vs Lean ticked semantics vs '
+                    'reading, then as subclass instances; (options) no "globals" member and a stale statementCount: same outcome; (callables) CallGen programs '
+                    'whose conditions, for-values and arguments call host functions of every registration shape (def, lambda, '
+                    'callable object with state, bound method, functools.partial, *args, defaulted parameters, raising, raising '
+                    'ValueArgsError) vs the independent call-dispatch reading Ref given fresh instances of the same functions. '
+                    'Host-only inputs: the Lean value model has no host subclasses or Python callables, implementation-side oracles only. '
+                    'non-trivial = run completes and takes a loop / calls a host function')
+    both = [(c, i) for c, i in zip(cases, impls)] + [(c, i) for c, i in zip(call_cases, call_impls)]
+    for (prog, g, stats), plain in rng.sample(both, min(len(both), ctx.scale(250, 2500))):
+        text = '\n'.join(progen.render(prog))
+        model = parser.parse_script(text)
+        kinds = sorted({type(v).__name__ for v in g.values()})
+        if g:
+            seed = rng.randrange(10 ** 6)
+            got = progen.run_impl(model, wrap_globals(g, seed), max_statements=400)
+            st.case([text, g, seed], nontrivial='error' not in got and any(k in stats for k in ('while', 'for')), tags=['values'] + kinds)
+            if outcomes_differ(got, plain):
+                ctx.witness('host-subclass-transparent', {'text': text, 'globals': g, 'wrap_seed': seed}, plain, got, explained_by_f7=False)
+        else:
+            log = []
+            got = run_on({'maxStatements': 400, 'logFn': log.append, 'debug': False, 'statementCount': 10 ** 6}, log, model)
+            st.case([text, 'no-globals-member'], nontrivial='error' not in got, tags=['options'])
+            if outcomes_differ(got, plain):
+                ctx.witness('host-options-minimal', {'text': text, 'globals': {}}, plain, got, explained_by_f7=False)
+    # truth walks: plain globals (implementation vs reading vs Lean), then the same values as host subclass instances
+    truth = [gen_truth_case(rng) for _ in range(ctx.scale(150, 1500))]
+    reqs = []
+    for prog, g in truth:
+        wg = progen.wire_globals(g)
+        reqs.append({'op': 'execT', 'prog': prog, 'globals': wg, 'max': 400, 'fuel': 5000})
+    for (prog, g), resp in zip(truth, ctx.driver.batch(reqs)):
+        text = '\n'.join(progen.render(prog))
+        model = parser.parse_script(text)
+        plain = progen.run_impl(model, g, max_statements=400)
+        seed = rng.randrange(10 ** 6)
+        got = progen.run_impl(model, wrap_globals(g, seed), max_statements=400)
+        st.case([text, g, seed], nontrivial='error' not in plain, tags=['truth'] + (['keyword-name'] if any(k in g for k in KEYWORD_NAMES) else []))
+        ctx.compare('execT-truth', [text, g], plain, progen.canon_model_out(resp))
+        ref = run_ref(prog, g, budget=2000, steps=True)
+        if ref is not None and (needless_budget_error(plain, ref, 400) or ('error' not in plain and _no_steps(ref) != progen.strip_hidden(plain))):
+            ctx.witness('structured-reading', _w_input(text, g, prog), _no_steps(ref), progen.strip_hidden(plain),
+                        explained_by_f7=False)
+        elif outcomes_differ(got, plain):
+            ctx.witness('host-subclass-transparent', {'text': text, 'globals': g, 'wrap_seed': seed}, plain, got, explained_by_f7=False)
+    for _ in range(ctx.scale(200, 2000)):
+        gen = CallGen(rng, host=HOST_SIGNATURES)
+        prog = gen.program()
+        g = progen.random_globals(rng)
+        text = '\n'.join(progen.render(prog))
+        model = parser.parse_script(text)
+        seed = rng.randrange(10 ** 6) if rng.random() < 0.3 else None
+        got = run_with_host(model, g, seed)
+        st.case([text, g, seed], nontrivial='error' not in got and gen.stats.get('host-calls', 0) > 0, tags=['callables'] + sorted(gen.stats))
+        if got.get('hostexc') == 'RecursionError':
+            continue
+        ref = run_ref(prog, g if seed is None else wrap_globals(g, seed), host=make_host(), budget=2000, steps=True)
+        if ref is None:
+            continue
+        want = {k: v for k, v in ref.items() if k != 'steps'}
+        if needless_budget_error(got, ref, 400) or ('error' not in got and want != progen.strip_hidden(got)):
+            ctx.witness('structured-reading-host', dict(_w_input(text, g, prog), wrap_seed=seed), want,
+                        progen.strip_hidden(got), explained_by_f7=False)
+
+
 def disagreement_known(d, known):
     return False
 
@@ -491,10 +1613,11 @@ def search(ctx):
     property's own oracle (independent structured reading vs the implementation), deeper programs, more seeds."""
     parser = fw.impl()['parser']
     rng = ctx.rng('search')
-    for _ in range(ctx.scale(2500, 20000)):
-        gen = progen.Gen(rng, max_depth=rng.choice([3, 4, 5, 6]))
+    for turn in range(ctx.scale(2500, 20000)):
+        # grammar-directed programs and call-heavy programs (per-call frames, re-entered loops, keyword-named variables) in turn
+        gen = progen.Gen(rng, max_depth=rng.choice([3, 4, 5, 6])) if turn % 2 == 0 else CallGen(rng)
         prog = gen.program()
-        g = progen.random_globals(rng)
+        g = keyword_globals(progen.random_globals(rng), rng)
         text = '\n'.join(progen.render(prog))
         try:
             model = parser.parse_script(text)
@@ -504,24 +1627,49 @@ def search(ctx):
         impl = progen.run_impl(model, g, max_statements=600)
         if 'error' in impl or 'hostexc' in impl:
             continue
-        ref = progen.run_reference(prog, g)
+        ref = run_ref(prog, g) if turn % 2 else progen.run_reference(prog, g)
         if ref is not None and ref != progen.strip_hidden(impl):
             ref7 = progen.run_reference(prog, g, f7_quirk=True) if progen.has_while_continue(prog) else None
             if ref7 is None or ref7 != progen.strip_hidden(impl):
-                ctx.witness('structured-reading', {'text': text, 'globals': g, 'prog': prog}, ref, progen.strip_hidden(impl),
+                ctx.witness('structured-reading', _w_input(text, g, prog), ref, progen.strip_hidden(impl),
                             explained_by_f7=False)
                 return
+
+
+def _history_steps(inp):
+    return [dict(s, kind='replay') for s in inp['steps']]
 
 
 def replay(witness):
     parser = fw.impl()['parser']
     inp = witness['input']
-    if witness.get('oracle') == 'print-parse-lowering':
+    oracle = witness.get('oracle')
+    if oracle == 'print-parse-lowering':
         try:
             got = progen.canon_script(parser.parse_script(inp['text']), with_fid=False)
         except Exception as exc:  # pylint: disable=broad-except
             got = {'error': f'{type(exc).__name__}: {getattr(exc, "error", exc)}'}
         return _digest(got) != witness['expected_digest']
+    if oracle == 'chunked-parse':
+        return parse_spelled(parser, inp['text'], inp['spelling']) != parser.parse_script(inp['text'])
+    if oracle == 'options-reuse':
+        return run_history(inp['mode'], inp['limit'], _history_steps(inp), parser) is not None
+    if oracle in ('options-reuse-budget', 'options-reuse-reading', 'options-reuse-parse'):
+        got, _ = History(inp['mode'], inp['limit']).run(_history_steps(inp), parser)
+        if oracle != 'options-reuse-reading':
+            return got.get('error', '').startswith('Exceeded maximum script statements' if oracle == 'options-reuse-budget' else 'ParserError')
+        return progen.strip_hidden(got) != witness['expected']
+    if oracle == 'host-subclass-transparent':
+        model = parser.parse_script(inp['text'])
+        return outcomes_differ(progen.run_impl(model, wrap_globals(inp['globals'], inp['wrap_seed']), max_statements=400),
+                               progen.run_impl(model, inp['globals'], max_statements=400))
+    if oracle == 'host-options-minimal':
+        log = []
+        model = parser.parse_script(inp['text'])
+        return outcomes_differ(run_on({'maxStatements': 400, 'logFn': log.append, 'debug': False, 'statementCount': 10 ** 6}, log, model),
+                               progen.run_impl(model, {}, max_statements=400))
+    if oracle == 'structured-reading-host':
+        return progen.strip_hidden(run_with_host(parser.parse_script(inp['text']), inp['globals'], inp['wrap_seed'])) != witness['expected']
     model = parser.parse_script(inp['text'])
     impl = progen.strip_hidden(progen.run_impl(model, inp['globals'], max_statements=400))
     return impl != witness['expected']
